@@ -2043,6 +2043,7 @@ func c15Static(c *Ctx) {
 		}
 	}
 	c15ZeroGrid(c, or, rng)
+	c15Routes(c, rng)
 	// tag parser: parseFieldOptions vs the independent parser, generated and mutated tags
 	frag := []string{"", "a", "A_b", "name", "x y", "é", "-", "omitzero", "omitempty", "string", "embed", "case:ignore", "case:strict", "case", "case:x", "format:x", "format:'a b'",
 		"format:''", "format", "unknown", "omitEmpty", "omit_zero", "String", "CASE", "a:b", "1x", "_x", "x1", " ", "fo.o", "\"q", "q\\", "`"}
